@@ -353,7 +353,9 @@ def main():
         chk.machinery(f"e2e family too small ({e2e['members']} members): {e2e['skipped_types']}")
 
     res = unitx.run(chk, "relrange")
-    unitx.record_violations(chk, res, part="unit")
+    arch_rank = {"x86_64": 0, "riscv64": 1, "aarch64": 2, "loongarch64": 3, "all": 4}
+    unitx.record_violations(chk, res, part="unit",
+                            order=lambda k: (arch_rank.get(k.split(":")[0], 9), k))
     if res["types"] < 100:
         chk.machinery(f"relrange saw only {res['types']} relocation types")
 
